@@ -138,6 +138,9 @@ class _RunnerIterator(iter_utils.MultiplexIterator[_ValueT]):
     ) -> Iterator[tree.TreeLike]:
       """Call a chain of functions in sequence."""
       result = input_iterator
+      if self._ignore_error and not self._runner.fns:
+        # No operator of this stage would skip the errors of its inputs.
+        result = iter_utils.iter_ignore_error(iter(result))
       for fn in self._runner.fns:
         fn = dataclasses.replace(fn, ignore_error=self._ignore_error)
         result = fn.iterate(result)
